@@ -16,6 +16,18 @@ Deepening round (end of the `IrVerif.WriterN` part):
   `C09_nocb_deadlock_free`, `C09_nocb_schedule_bounded`.
 * failing tensors: every theorem quantifies over arbitrary `fails` / `cbFails` flags, i.e. any number of
   failing tensors in any shards (`exTwoFail` is a witness with two failing shards).
+
+Deepening round 2:
+* `C09_bytes_serial_layout_c07_sharded`: the link to C07's file model for EVERY save — every shard file is
+  C07's `serialImage` of that shard's writes (`Layout.dataFiles`), read-back per shard file (`C07_readback`) and
+  through the recorded placements (`C07_roundtrip`); Lemmas/WriterLayoutShards.lean.
+* `IrVerif.Writer.C09_flat_is_general`: the flat model is the one-pool instance of the general model
+  (`toN` / `absState` / `absLabel`, Model/WriterFlatN.lean, Lemmas/WriterFlatN.lean): lock-step bisimulation, WF
+  carries over; the flat model therefore needs no callback=None variant of its own.
+* `C09_memory_bound`: the reservation of every tensor is computed by the model of `_reservation_bytes`
+  (`reservationBytes`, `planArgs`), what a writer holds (`peakBytes`: all of `tobytes()` / one buffer of the copy
+  loop `copyReads` of `ExternalTensor.tofile`) never exceeds it, hence bytes held <= max(budget, 1) + max nbytes;
+  Lemmas/WriterMem.lean.
 -/
 import IrVerif.Lemmas.WriterFiles
 import IrVerif.Lemmas.WriterNFiles
